@@ -2041,13 +2041,19 @@ class TargetRegistry:
             return OrderedDict()
 
     def _get_closest_type(self, obj, type_tree):
-        default = None
+        candidates = []
         for cur_type, sub_tree in type_tree.items():
             if isinstance(obj, cur_type):
                 sub_type = self._get_closest_type(obj, type_tree=sub_tree)
-                ret = cur_type if sub_type is None else sub_type
-                return ret
-        return default
+                candidates.append(cur_type if sub_type is None else sub_type)
+        if len(candidates) > 1:
+            # several unrelated registered types match: an actual base class
+            # beats a virtual / duck type, and the nearest base class wins
+            mro = type(obj).__mro__
+            bases = [c for c in candidates if c in mro]
+            if bases:
+                return min(bases, key=mro.index)
+        return candidates[0] if candidates else None
 
     def _register_default_types(self):
         self.register(object)
